@@ -145,6 +145,16 @@ class Machine(object):
                         return None
                     v = vals(op["vals"])
                     arr = np.array(v, float).astype(op.get("dtype", "f8")) if op.get("asarray", True) else v
+                    if op.get("strided") and op.get("asarray", True) and nrows:
+                        # the column is a strided view (one column of a (n,3) table, every second element of a buffer)
+                        if op["strided"] == 1:
+                            tab = np.zeros((nrows, 3), arr.dtype)
+                            tab[:, 1] = arr
+                            arr = tab[:, 1]
+                        else:
+                            buf = np.zeros(2 * nrows, arr.dtype)
+                            buf[::2] = arr
+                            arr = buf[::2]
                     if name == "addcolumn_new":
                         cf.addcolumn(arr, t)
                     else:
@@ -203,7 +213,16 @@ class Machine(object):
                     if not titles:
                         return None
                     m = (op["mask"] * (nrows // max(1, len(op["mask"])) + 1))[:nrows]
-                    cf.filter(np.array(m, bool))
+                    style = op.get("mask_style", "bool")
+                    if style == "bool":
+                        cf.filter(np.array(m, bool))
+                    elif style == "int01":
+                        cf.filter(np.array(m, int))
+                    elif style == "truthy":
+                        # any array of true/false values in numpy's sense: counts, flags like 0/-1, a label column
+                        cf.filter(np.array(m, int) * np.array([2, 5, -1, 7, 3] * (nrows // 5 + 1))[:nrows])
+                    else:
+                        cf.filter([bool(x) for x in m])
                     for t in new_model:
                         new_model[t] = [v for v, keep in zip(model[t], m) if keep]
                 elif name == "removerows":
@@ -270,7 +289,11 @@ class Machine(object):
                     n2 = op["nrows"]
                     rnd = random.Random(op["pseed"])
                     data = [[float(rnd.randint(-9, 9)) + 0.5 * c for _ in range(n2)] for c in range(len(titles))]
-                    if op["as2d"]:
+                    if op["as2d"] and op.get("order") == "T":
+                        cf.bigarray = np.ascontiguousarray(np.array(data, float).reshape(len(titles), n2).T).T    # a transposed table
+                    elif op["as2d"] and op.get("order") == "F":
+                        cf.bigarray = np.asfortranarray(np.array(data, float).reshape(len(titles), n2))
+                    elif op["as2d"]:
                         cf.bigarray = np.array(data, float).reshape(len(titles), n2)
                     else:
                         cf.bigarray = [np.array(d, float) for d in data]
@@ -399,7 +422,12 @@ def gen_ops(rnd, nops):
         if n in ("setitem_scalar", "setattr_scalar", "write_attr", "write_item", "write_getcolumn"):
             op["x"] = float(rnd.randint(-50, 50)) + 0.125
             op["row"] = rnd.randint(0, 40)
+        if n in ("addcolumn_new", "setitem_new"):
+            op["strided"] = rnd.choice([0, 0, 1, 2])
+        if n == "set_bigarray":
+            op["order"] = rnd.choice(["C", "C", "T", "F"])
         if n == "filter":
+            op["mask_style"] = rnd.choice(["bool", "bool", "int01", "truthy", "list"])
             op["mask"] = [rnd.random() < rnd.choice([0.0, 0.5, 0.8, 1.0]) for _ in range(rnd.randint(1, 13))]
         if n == "removerows":
             op["values"] = [float(rnd.randint(-20, 20)) + rnd.choice([0.0, 0.25]) for _ in range(rnd.randint(1, 3))]
